@@ -83,6 +83,7 @@ pub struct FnInfo {
     pub from_trait_default: bool,
     pub tybind: HashMap<String, Ty>,
     pub cfg_rand: bool,
+    pub param_ref: Vec<u8>, // 0 = by value, 1 = &, 2 = &mut
 }
 
 #[derive(Clone)]
@@ -692,6 +693,7 @@ fn mk_fn(
     let name = sig.ident.to_string();
     let mut self_kind = SelfKind::None;
     let mut params = vec![];
+    let mut param_ref: Vec<u8> = vec![];
     for a in &sig.inputs {
         match a {
             FnArg::Receiver(r) => {
@@ -707,6 +709,11 @@ fn mk_fn(
             }
             FnArg::Typed(pt) => {
                 params.push(((*pt.pat).clone(), conv_type(&pt.ty, bind)));
+                param_ref.push(match &*pt.ty {
+                    Type::Reference(r) if r.mutability.is_some() => 2,
+                    Type::Reference(_) => 1,
+                    _ => 0,
+                });
             }
         }
     }
@@ -739,5 +746,6 @@ fn mk_fn(
         from_trait_default: from_default,
         tybind: bind.clone(),
         cfg_rand,
+        param_ref,
     }
 }
